@@ -25,6 +25,7 @@ type Env struct {
 	old    *State
 	bound  map[string]TV
 	atLoop bool
+	caller map[string]TV // at call sites: the caller's parameters, as caller.<name>
 }
 
 func (e *Env) withState(cur, old *State) *Env {
@@ -58,83 +59,63 @@ func (f *fx) envAt(st *State) *Env {
 	return env
 }
 
-// lookupLocal resolves a source-level variable name at the current point.
+// lookupLocal resolves a source-level variable name at the current point: the latest definition or
+// reference (phi named like the variable, debug reference, or address-taken local) that dominates
+// the current block.
 func (f *fx) lookupLocal(name string) (TV, bool) {
-	// phis of enclosing loop heads named like the variable, innermost (= latest defined) first
-	var best *ssa.Phi
-	for v := range f.vals {
-		if phi, ok := v.(*ssa.Phi); ok && phi.Comment == name {
-			if li := f.loops[phi.Block()]; li != nil && (li.body[f.curBlock] || phi.Block() == f.curBlock) {
-				if best == nil || phi.Block().Index > best.Block().Index {
-					best = phi
-				}
-			}
-		}
-	}
-	if best != nil {
-		return TV{V: f.vals[best], GoT: best.Type()}, true
-	}
-	// non-lifted allocs
-	for _, b := range f.fn.Blocks {
-		for _, in := range b.Instrs {
-			if a, ok := in.(*ssa.Alloc); ok && a.Comment == name {
-				if v, ok := f.vals[a]; ok {
-					return TV{V: v, GoT: a.Type()}, true
-				}
-			}
-		}
-	}
-	// debug refs: unique value
-	if vs := f.nameMapFor()[name]; len(vs) > 0 {
-		var found ssa.Value
+	depth := func(b *ssa.BasicBlock) int {
 		n := 0
-		for _, v := range vs {
-			if _, ok := f.vals[v]; ok {
-				if found != v {
-					n++
-				}
-				found = v
-			} else if _, isC := v.(*ssa.Const); isC {
-				if found != v {
-					n++
-				}
-				found = v
-			}
+		for x := b.Idom(); x != nil; x = x.Idom() {
+			n++
 		}
-		if n == 1 {
-			return TV{V: f.val(found), GoT: found.Type()}, true
+		return n
+	}
+	cur := f.curBlock
+	bestDepth, bestIdx := -1, -1
+	var best TV
+	found := false
+	consider := func(tv TV, b *ssa.BasicBlock, idx int) {
+		if b != cur && !b.Dominates(cur) {
+			return
 		}
-		if n > 1 {
-			unsupp("name %q in a loop invariant of %s is ambiguous (%d SSA values)", name, fnKey(f.fn), n)
+		d := depth(b)
+		if d > bestDepth || (d == bestDepth && idx > bestIdx) {
+			bestDepth, bestIdx, best, found = d, idx, tv, true
 		}
 	}
-	return TV{}, false
+	for _, b := range f.fn.Blocks {
+		for i, in := range b.Instrs {
+			switch x := in.(type) {
+			case *ssa.Phi:
+				if x.Comment == name {
+					if v, ok := f.vals[x]; ok {
+						consider(TV{V: v, GoT: x.Type()}, b, i)
+					}
+				}
+			case *ssa.Alloc:
+				if x.Comment == name {
+					if v, ok := f.vals[x]; ok && v.Kind == vLoc {
+						consider(TV{V: termVal(f.load(f.cur, v.Loc)), GoT: derefType(x.Type())}, b, i)
+					}
+				}
+			case *ssa.DebugRef:
+				if b == cur {
+					continue // references in the current block may lie after the current point
+				}
+				if id, ok := x.Expr.(*ast.Ident); ok && id.Name == name && !x.IsAddr {
+					if _, isC := x.X.(*ssa.Const); isC {
+						consider(TV{V: f.val(x.X), GoT: x.X.Type()}, b, i)
+					} else if v, ok := f.vals[x.X]; ok {
+						consider(TV{V: v, GoT: x.X.Type()}, b, i)
+					}
+				}
+			}
+		}
+	}
+	return best, found
 }
 
-func (f *fx) nameMapFor() map[string][]ssa.Value {
-	if f.nameMap != nil {
-		return f.nameMap
-	}
-	f.nameMap = map[string][]ssa.Value{}
-	for _, b := range f.fn.Blocks {
-		for _, in := range b.Instrs {
-			if d, ok := in.(*ssa.DebugRef); ok && !d.IsAddr {
-				if id, ok := d.Expr.(*ast.Ident); ok {
-					dup := false
-					for _, v := range f.nameMap[id.Name] {
-						if v == d.X {
-							dup = true
-						}
-					}
-					if !dup {
-						f.nameMap[id.Name] = append(f.nameMap[id.Name], d.X)
-					}
-				}
-			}
-		}
-	}
-	return f.nameMap
-}
+func (f *fx) nameMapFor() map[string][]ssa.Value { return nil }
 
 func (f *fx) specBool(c *Clause, env *Env) Term {
 	tv := f.evalSpec(c.Expr, env)
@@ -186,6 +167,15 @@ func (f *fx) evalSpec(x ast.Expr, env *Env) TV {
 		return f.specIdent(e.Name, env)
 	case *ast.SelectorExpr:
 		// package-qualified constant?
+		if id, ok := e.X.(*ast.Ident); ok && id.Name == "caller" && env.caller != nil {
+			if v, ok := env.caller[e.Sel.Name]; ok {
+				return v
+			}
+			if v, ok := env.f.lookupLocal(e.Sel.Name); ok {
+				return v
+			}
+			unsupp("caller.%s is not a parameter or local of the calling function", e.Sel.Name)
+		}
 		if id, ok := e.X.(*ast.Ident); ok {
 			if _, isVar := f.tryIdent(id.Name, env); !isVar {
 				if pkg := f.e.importedPkg(id.Name); pkg != nil {
@@ -699,6 +689,30 @@ func (f *fx) specCall(e *ast.CallExpr, env *Env) TV {
 			unsupp("iface: unknown type %s", tn)
 		}
 		return tvTerm(f.makeIface(a.V, gt), nil)
+	case "ncalls":
+		// ncalls("callee key"): how many times this function body has called the callee so far
+		tl, ok := e.Args[0].(*ast.BasicLit)
+		if !ok {
+			unsupp("ncalls(\"key\")")
+		}
+		k, _ := strconv.Unquote(tl.Value)
+		key := "E:ncalls:" + k
+		f.regKey(key, "Int")
+		return tvTerm(f.get(env.cur, key), tInt)
+	case "gaddr":
+		// gaddr(name): address of a package-level variable
+		id, ok := e.Args[0].(*ast.Ident)
+		if !ok {
+			unsupp("gaddr(name)")
+		}
+		return tvTerm(f.globalAddr("G:"+mangle("jet."+id.Name)), nil)
+	case "zero":
+		tl, ok := e.Args[0].(*ast.BasicLit)
+		if !ok {
+			unsupp("zero(\"T\")")
+		}
+		tn, _ := strconv.Unquote(tl.Value)
+		return tvTerm(f.e.sorts.zero(f.e.specSort(tn)), f.e.lookupType(tn))
 	case "isnil":
 		t := argT(0)
 		return tvTerm(eq(t, f.e.sorts.zero(t.Sort)), tBoolT)
